@@ -49,6 +49,14 @@ func H_C16_capabilities() {
 	vAssert("tools-always", res.Capabilities.Tools != nil)
 	vAssert("prompts-iff-registered", (res.Capabilities.Prompts != nil) == hasPrompt)
 	vAssert("resources-iff-registered", (res.Capabilities.Resources != nil) == hasResource)
+	// the server announces list changes for every capability it advertises (it sends those notifications)
+	vAssert("tools-list-changed-advertised", res.Capabilities.Tools != nil && res.Capabilities.Tools.ListChanged)
+	if hasPrompt {
+		vAssert("prompts-list-changed-advertised", res.Capabilities.Prompts != nil && res.Capabilities.Prompts.ListChanged)
+	}
+	if hasResource {
+		vAssert("resources-list-changed-advertised", res.Capabilities.Resources != nil && res.Capabilities.Resources.ListChanged)
+	}
 	// a later registration shows at the next initialize
 	if !hasPrompt {
 		h.promptManager.registerPrompt(&Prompt{Name: "late"}, func(ctx context.Context, r *GetPromptRequest) (*GetPromptResult, error) { return nil, nil })
